@@ -596,6 +596,56 @@ func c08RunPrespecified(pre []uint32, sameConn bool) explore.Result {
 	return res
 }
 
+// c08RunScans: the statement function decodes every parameter with several requested types, one after the other and
+// on a second execution of the portal: each Scan decodes the bound bytes with the type requested in THAT call.
+func c08RunScans(value string, oids []uint32) explore.Result {
+	var res explore.Result
+	res.Outcome = "no-null"
+	res.Key = fmt.Sprint("scans", value, oids)
+	var got []string
+	parse := func(ctx context.Context, q string) (wire.PreparedStatements, error) {
+		return wire.Prepared(wire.NewStatement(func(ctx context.Context, w wire.DataWriter, params []wire.Parameter) error {
+			for _, p := range params {
+				for _, o := range oids {
+					v, err := p.Scan(o)
+					if err != nil {
+						got = append(got, fmt.Sprintf("%d:error", o))
+					} else {
+						got = append(got, fmt.Sprintf("%d:%T:%v", o, v, v))
+					}
+				}
+			}
+			return w.Complete("OK")
+		}, wire.WithParameters([]oid.Oid{0}))), nil
+	}
+	one, err := harness.StartOne(parse)
+	if err != nil {
+		res.Engine = err.Error()
+		return res
+	}
+	defer one.Stop()
+	one.Step(pgproto.Startup("user", "u"))
+	one.Step(pgproto.Cat(pgproto.Parse("s", "q $1"), pgproto.Bind("p", "s", nil, [][]byte{[]byte(value)}, nil), pgproto.Execute("p", 0), pgproto.Execute("p", 0), pgproto.Sync()))
+	// the reference: every requested type on its own, on a fresh portal
+	var want []string
+	for _, o := range oids {
+		o := o
+		got1 := got
+		got = nil
+		save := oids
+		oids = []uint32{o}
+		one.Step(pgproto.Cat(pgproto.Bind("q", "s", nil, [][]byte{[]byte(value)}, nil), pgproto.Execute("q", 0), pgproto.Sync()))
+		want = append(want, got...)
+		oids = save
+		got = got1
+	}
+	want = append(want, want...)
+	if !sameStrings(got, want) {
+		res.Fail("parameter-values", fmt.Sprintf("the text value %q scanned with the types %v one after the other (and again on a second Execute) gave %v; each type on its own gives %v", value, oids, got, want))
+	}
+	return res
+}
+
 // c08RunReparse: a statement name is parsed, described, then parsed AGAIN with another text (no Close in between)
 // and described again (k times): every Describe announces the declared parameter types and columns of the
 // definition in force, and a Bind + Execute afterwards reaches that definition.
@@ -942,6 +992,29 @@ func c08Enumerate(tier string, emit explore.Emit) {
 						Run: func() explore.Result { return c08RunReparse(name, before, after, cl) }})
 				}
 			}
+		}
+	}
+	// the bound values reach the statement however much traffic lies between Bind and Execute (C03's retention runner)
+	for _, r := range [][3]int{{3, 1500, 0}, {40, 200, 0}, {100, 60, 0}, {0, 0, 40}, {100, 60, 40}} {
+		r := r
+		emit(explore.Case{Family: "two-connections", Size: 7,
+			Desc: func() any {
+				return map[string]any{"between_bind_and_execute": fmt.Sprintf("%d Parse messages of %d bytes, %d other connections", r[0], r[1], r[2])}
+			},
+			Run: func() explore.Result {
+				res := c03RunRetention(r[0], r[1], r[2])
+				res.Outcome = "two-portals"
+				for i := range res.Violations {
+					res.Violations[i].Clause = "parameter-values"
+				}
+				return res
+			}})
+	}
+	for _, value := range []string{"42", "abc", "t", "2024-03-10"} {
+		for _, oids := range [][]uint32{{20, 25}, {25, 20}, {23, 16, 25}, {1082, 25, 20}, {25, 25}} {
+			value, oids := value, oids
+			emit(explore.Case{Family: "string-rows", Size: 4, Desc: func() any { return map[string]any{"parameter_text": value, "scanned_with_types": oids} },
+				Run: func() explore.Result { return c08RunScans(value, oids) }})
 		}
 	}
 	// types pre-declared by the client in Parse
